@@ -95,7 +95,7 @@ def str_text(rng, s):
     return "".join(out) + '"'
 
 
-CHARS = ["a", "b", "é", "中", "\U0001f600", '"', "\\", "/", "\n", "\t", "\x00", "\x1f", "\x7f", " ", " ", "퟿", "", "\U0010ffff", "0", "`", "'"]
+CHARS = ["a", "b", "é", "中", "\U0001f600", '"', "\\", "/", "\n", "\t", "\x00", "\x1f", "\x7f", " ", " ", "퟿", "", "\U0010ffff", "0", "`", "'", "\ufeff", "\u200b", "\u2060", "\ufffe", "\uffff", "\u00ad", "\u2028", "\u2029", "\u0085", "\u200d", "\ufe0f", "\u0301", "\u00a0", "\ue000"]
 
 
 def rand_s(rng, n=5):
@@ -210,6 +210,16 @@ class P(framework.Prop):
             else:
                 text = text + rng.choice([" ", "x", ",", "]", "1", "\n\t "])
             out.append("json " + wire.s(text))
+        # invisible and special code points are content inside strings and keys, and not white space outside of them
+        for ch in ["\ufeff", "\u200b", "\u2060", "\ufffe", "\u00ad", "\u00a0", "\u2028", "\u0085", "\u200d", "\u0301", "\x0b", "\x0c"]:
+            docs = [('"a%sb"' % ch, "a%sb" % ch), ('"%s"' % ch, ch), ('"%s%s"' % (ch, ch), ch + ch), ('{"k": "p", "k%s": "q"}' % ch, {"k": "p", "k" + ch: "q"}),
+                    ('{"%sk": ["p"], "k": ["q"]}' % ch, {ch + "k": ["p"], "k": ["q"]}), ('["%s", "", "%sx"]' % (ch, ch), [ch, "", ch + "x"])]
+            for text, exp in (docs if ord(ch) >= 0x20 else []):
+                line = "json " + wire.s(text)
+                self.expect[line] = exp
+                out.append(line)
+            for text in [ch + "1", "1" + ch, "[1," + ch + "2]", ch, '{"a"' + ch + ":1}", ch + '"a"', "[" + ch + "]"]:
+                out.append("json " + wire.s(text))
         for d in (126, 127, 128, 129):
             out.append("json " + wire.s("[" * d + "]" * d))
             out.append("json " + wire.s('{"a":' * d + "1" + "}" * d))
